@@ -14,6 +14,7 @@ import z3
 from z3 import And, If, Real, RealVal
 
 from ..contracts.call_oracle import CallOracle
+from ..contracts.gridsearch_fit import FitLoop
 from ..contracts.loss_moments import ErrorRateSignedWeights, LossSignedWeights
 from ..contracts.moments_matrix import Gamma, ProjectLambda, SignedWeights
 from ..pyvc import solve, verify
@@ -71,7 +72,11 @@ def run_deductive(rep):
              (ErrorRateSignedWeights(False), [("false_positive_cost_sign", verify.replace_expr("-self.fp_cost", "self.fp_cost"))]),
              (CallOracle(), [("relabel_with_non_strict_test", verify.replace_expr("signed_weights > 0", "signed_weights >= 0")),
                              ("objective_weights_missing", verify.replace_expr("self.obj.signed_weights() + self.constraints.signed_weights(lambda_vec)", "self.constraints.signed_weights(lambda_vec)")),
-                             ("weights_not_absolute", verify.replace_expr("signed_weights.abs()", "signed_weights"))])]
+                             ("weights_not_absolute", verify.replace_expr("signed_weights.abs()", "signed_weights"))]),
+             # the consequence clause for GridSearch: per grid column the learner minimises objective + lambda.gamma, i.e. it is trained on the signed weights
+             # constraints.signed_weights(lambda) + objective.signed_weights() themselves (no rescaling of either part by constraint_weight / objective_weight)
+             (FitLoop(), [("objective_weights_rescaled", verify.replace_expr("weights + objective.signed_weights()", "weights + 2 * objective.signed_weights()")),
+                          ("weights_not_made_absolute", verify.replace_expr("weights.abs()", "weights"))])]
     verify.verify_many(rep, items)
     lemmas(rep)
     if rep.tier == "thorough":
